@@ -15,7 +15,8 @@ case = (backend, timed, parts, stages, draws, jobs)
   draws   [(seed, the random() values random.Random(seed) hands out while the plain lineage is evaluated)]
           -- the Mersenne twister (and math.exp) are oracles for the model
   jobs    [(depth, action, arg, schedule)]: action on the dataset made of the first `depth` stages;
-          0 runJob(unit_map) per-partition lists, 1 collect, 2 count, 3 sum, 4 coalesce(arg) partitions
+          0 runJob(unit_map) per-partition lists, 1 collect, 2 count, 3 sum, 4 coalesce(arg) partitions,
+          5 unpersist() of that dataset (no job; value None)
 result = ([(events, value) per job], cache_obj as [((stage position, partition), data)], stamped idents)
 """
 import atexit
@@ -101,7 +102,7 @@ FNS = {
 EXPANDING = (3, 6)
 BACKEND_NAMES = {0: 'sched', 1: 'sched+pickle', 2: 'dummy', 3: 'threadpool', 4: 'mp+cloudpickle', 5: 'mp+dill',
                  6: 'ppe+cloudpickle', 7: 'ppe+dill', 8: 'lazy-map'}
-ACTION_NAMES = {0: 'runJob', 1: 'collect', 2: 'count', 3: 'sum', 4: 'coalesce'}
+ACTION_NAMES = {0: 'runJob', 1: 'collect', 2: 'count', 3: 'sum', 4: 'coalesce', 5: 'unpersist'}
 
 _POOLS = {}
 
@@ -202,18 +203,22 @@ def run_action(r, action, arg):
         return r.sum()
     if action == 4:
         return [list(p.x()) for p in r.coalesce(arg).partitions()]
+    if action == 5:
+        r.unpersist()
+        return None
     raise ValueError('action')
 
 
 def observe(backend, timed, parts, stages, jobs):
-    sc, pool = make_context(backend, timed, [j[3] for j in jobs])
+    sc, pool = make_context(backend, timed, [j[3] for j in jobs if j[1] != 5])   # unpersist() runs no job
     chain, ids = build_lineage(sc, parts, stages)
-    outs = []
+    outs, ran = [], 0
     for depth, action, arg, _ in jobs:
         value = run_action(chain[depth], action, arg)
         events = []
-        if pool is not None:
-            if len(pool.jobs) != len(outs) + 1:
+        if pool is not None and action != 5:
+            ran += 1
+            if len(pool.jobs) != ran:
                 return Err('UnexpectedNumberOfPoolJobs')
             events = [(tid, LABELS.get(at, -1)) for tid, at in pool.jobs[-1]]
         outs.append((events, value))
@@ -223,7 +228,15 @@ def observe(backend, timed, parts, stages, jobs):
     return (outs, cache, stamped)
 
 
+def _is_program_case(case):
+    """('free' | 'history', backend, timed, spec, schedules): a replayable cross-backend program (judged by the oracle
+    alone; the model does not decode it and answers BadCase, which is also what impl returns)."""
+    return isinstance(case, (tuple, list)) and len(case) == 5 and case[0] in ('free', 'history')
+
+
 def impl(case):
+    if _is_program_case(case):
+        return Err('BadCase')
     backend, timed, parts, stages, _draws, jobs = case
     try:
         return observe(backend, timed, parts, stages, jobs)
@@ -256,6 +269,8 @@ def reference(parts, stages, jobs):
 
 
 def oracle(case, result):
+    if _is_program_case(case):
+        return _judge_program(case)
     backend, timed, parts, stages, _draws, jobs = case
     bname = BACKEND_NAMES.get(backend, str(backend))
     if isinstance(result, Err):
@@ -300,6 +315,8 @@ def preempted(events):
 
 
 def nontrivial(case, result):
+    if _is_program_case(case):
+        return False
     backend, _timed, parts, stages, _draws, _jobs = case
     if isinstance(result, Err) or len(parts) < 2 or not any(s[0] in (1, 2) for s in stages):
         return False
@@ -309,6 +326,8 @@ def nontrivial(case, result):
 
 
 def kind(case):
+    if _is_program_case(case):
+        return f'{case[0]}:{BACKEND_NAMES.get(case[1], case[1])}'
     backend, timed, parts, stages, _draws, jobs = case
     shape = ''.join('R' if s[0] == 2 and s[2] else 'MPS'[s[0]] for s in stages)
     return f'{BACKEND_NAMES.get(backend, backend)}{"+timed" if timed else ""}:{len(parts)}p:{shape}:{len(jobs)}j'
@@ -424,11 +443,13 @@ def random_parts(rng, lo=2, hi=4):
     return [[rng.randint(-3, 9) for _ in range(rng.randint(0, 4))] for _ in range(rng.randint(lo, hi))]
 
 
-def random_jobs(rng, nparts, nstages, sched_len):
+def random_jobs(rng, nparts, nstages, sched_len, persist_depths=()):
     jobs = []
-    for _ in range(rng.randint(1, 3)):
+    for _ in range(rng.randint(1, 4 if persist_depths else 3)):
         depth = nstages if rng.random() < 0.6 else rng.randint(0, nstages)
         action = rng.choice([0, 0, 1, 1, 2, 3, 4])
+        if persist_depths and rng.random() < 0.2:          # unpersist() of one of the persisted datasets
+            depth, action = rng.choice(persist_depths), 5
         arg = rng.randint(1, nparts + 1) if action == 4 else 0
         ids = list(range(nparts)) + ([nparts, -1] if rng.random() < 0.1 else [])
         style = rng.random()
@@ -488,6 +509,9 @@ def generate(rng, tier):
         for s in srng.sample(list(interleavings([6, 6])), 40):
             cases.append(mk(0, 0, two, [(2, 5, 0, 0.5)], [(1, 1, 0, s)]))
             cases.append(mk(0, 0, two, [(2, 9, 1, 1.5, math.exp(-1.5))], [(1, 1, 0, s)]))
+    # persist -> action -> unpersist() -> action again (and an unpersist of the inner dataset only)
+    for s in all_schedules(2, 4 if quick else 7):
+        cases.append(mk(0, 0, two, [(1,), (0, 0), (1,)], [(3, 1, 0, s), (3, 5, 0, []), (3, 1, 0, s[::-1]), (1, 5, 0, []), (3, 2, 0, s)]))
     # pickled copies: the same canonical program, shorter bound
     if 1 in have:
         for s in all_schedules(2, 4 if quick else 8):
@@ -496,7 +520,7 @@ def generate(rng, tier):
     for _ in range(300 if quick else 5000):
         parts = random_parts(rng)
         stages = random_stages(rng)
-        jobs = random_jobs(rng, len(parts), len(stages), 60)
+        jobs = random_jobs(rng, len(parts), len(stages), 60, [i + 1 for i, st in enumerate(stages) if st[0] == 1])
         cases.append(mk(rng.choice(sched_backends), int(rng.random() < 0.25), parts, stages, jobs))
     # -- edge shapes --------------------------------------------------------------------------------------
     for b in sched_backends + [2]:
@@ -510,12 +534,21 @@ def generate(rng, tier):
         for _ in range(n):
             parts = random_parts(rng)
             stages = random_stages(rng)
-            jobs = [(d, a, arg, []) for d, a, arg, _ in random_jobs(rng, len(parts), len(stages), 0)]
+            jobs = [(d, a, arg, []) for d, a, arg, _ in
+                    random_jobs(rng, len(parts), len(stages), 0, [i + 1 for i, st in enumerate(stages) if st[0] == 1])]
             cases.append(mk(b, int(rng.random() < 0.25), parts, stages, jobs))
     return cases
 
 
 def shrink_candidates(case):
+    if _is_program_case(case):
+        if case[0] == 'history':
+            data, slices, steps = case[3]
+            for i in range(len(steps)):
+                yield (case[0], case[1], case[2], (data, slices, steps[:i] + steps[i + 1:]), case[4])
+            if len(data) > 1:
+                yield (case[0], case[1], case[2], (data[:-1], slices, steps), case[4])
+        return
     backend, timed, parts, stages, _draws, jobs = case
     if len(jobs) > 1:
         for i in range(len(jobs)):
@@ -658,49 +691,206 @@ NESTED = 20   # position of the nested-job action in the output of a free progra
 def extra_checks(rng, tier, workdir):  # pylint: disable=unused-argument
     n = 12 if tier == 'quick' else 150
     have = [b for b in available_backends() if b != 2]
-    scratch = workdir or os.path.join(os.environ.get('VERIF_ROOT', '/verif'), '.work', f'C03_free_{os.getpid()}')
-    os.makedirs(scratch, exist_ok=True)
+    yield from _free_checks(rng, n, have, None)
+    yield from _history_checks(rng, n, have, None)
+
+
+FREE_NAMES = ['collect', 'count', 'second-collect', 'coalesce', 'sampleByKey', 'reduce', 'fold', 'aggregate', 'take',
+              'first', 'zipWithUniqueId', 'zipWithIndex', 'reduceByKey', 'poisson-sample-persist', 'distinct-count',
+              'distinct', 'aggregateByKey', 'foldByKey', 'groupByKey', 'toLocalIterator', 'nested-job-in-toLocalIterator',
+              'saveAsTextFile', 'last-collect', 'cache', 'unstamped']
+
+
+def _scratch():
+    d = os.path.join(os.environ.get('VERIF_ROOT', '/verif'), '.work', f'C03_free_{os.getpid()}')
+    os.makedirs(d, exist_ok=True)
+    return d
+
+
+def _judge_program(case):
+    """The cross-backend statement for one replayable program: (sig, message) or None."""
+    which, backend, timed, spec, sched = case
+    scratch = _scratch()
     try:
-        yield from _free_checks(rng, n, have, scratch)
+        if which == 'free':
+            return _judge_free(backend, timed, spec, sched, scratch)
+        return _judge_history(backend, timed, spec, sched, scratch)
     finally:
-        if not workdir:
-            shutil.rmtree(scratch, ignore_errors=True)
+        shutil.rmtree(scratch, ignore_errors=True)
 
 
-def _free_checks(rng, n, have, scratch):
+_WANT = {}
+
+
+def _default_executor(key, run):
+    """What the default executor returns for a program (computed once per program)."""
+    key = repr(key)
+    if key not in _WANT:
+        if len(_WANT) > 2000:
+            _WANT.clear()
+        try:
+            _WANT[key] = (run(), None)
+        except Exception as e:  # pylint: disable=broad-except
+            _WANT[key] = (None, type(e).__name__)
+    return _WANT[key]
+
+
+def _judge_free(backend, timed, spec, sched, scratch):
+    program = _free_program(spec)
+    want, err = _default_executor(('free', spec, timed), lambda: program(make_context(2, timed, max_retries=1)[0], scratch))
+    if err:
+        return ('dummy:free-program-raised', err)
+    # toLocalIterator runs its tasks while the job holds the context lock (repair e07529e; the lock itself is C04's
+    # clause): a task that starts a job is refused on every backend, it is not run later, outside the lock
+    if want[0] and want[NESTED] != ('raised', 'ContextIsLockedException'):
+        return ('dummy:free-program:job-started-inside-a-toLocalIterator-task-was-accepted',
+                f'{want[NESTED]!r} instead of ContextIsLockedException')
+    if backend == 2:
+        return None
+    bname = BACKEND_NAMES[backend]
+    try:
+        got = program(make_context(backend, timed, sched, max_retries=1)[0], scratch)
+    except Exception as e:  # pylint: disable=broad-except
+        return (f'{bname}:free-program-raised:{type(e).__name__}', 'program raised on this backend only')
+    if got != want:
+        i = next(i for i, (g, w) in enumerate(zip(got, want)) if g != w)
+        return (f'{bname}:free-program:{FREE_NAMES[i]}-differs-from-default-executor',
+                f'{FREE_NAMES[i]}: {got[i]!r} instead of {want[i]!r}')
+    return None
+
+
+def _free_checks(rng, n, have, scratch):  # pylint: disable=unused-argument
     for _ in range(n):
         spec = _free_spec(rng)
         timed = int(rng.random() < 0.3)
-        program = _free_program(spec)
-        try:
-            want = program(make_context(2, timed, max_retries=1)[0], scratch)
-        except Exception as e:  # pylint: disable=broad-except
-            yield ('dummy:free-program-raised', type(e).__name__, repr(spec), None)
-            continue
         _EXTRA['programs'] += 1
-        # toLocalIterator runs its tasks while the job holds the context lock (repair e07529e; the lock itself is C04's
-        # clause): a task that starts a job is refused on every backend, it is not run later, outside the lock
-        if want[0] and want[NESTED] != ('raised', 'ContextIsLockedException'):
-            yield ('dummy:free-program:job-started-inside-a-toLocalIterator-task-was-accepted',
-                   f'{want[NESTED]!r} instead of ContextIsLockedException', repr(spec), None)
         for b in have:
-            sched = [[rng.randrange(spec[1]) for _ in range(rng.randint(0, 80))] for _ in range(60)]
-            try:
-                got = program(make_context(b, timed, sched, max_retries=1)[0], scratch)
-            except Exception as e:  # pylint: disable=broad-except
-                yield (f'{BACKEND_NAMES[b]}:free-program-raised:{type(e).__name__}', 'program raised on this backend only',
-                       repr((spec, timed)), None)
-                continue
+            sched = [[rng.randrange(spec[1]) for _ in range(rng.randint(0, 80))] for _ in range(60)] if b in (0, 1) else []
+            case = ('free', b, timed, spec, sched)
+            o = _judge_program(case)
             _EXTRA['backend_runs'] += 1
-            if got != want:
-                which = next(i for i, (g, w) in enumerate(zip(got, want)) if g != w)
-                names = ['collect', 'count', 'second-collect', 'coalesce', 'sampleByKey', 'reduce', 'fold', 'aggregate', 'take',
-                         'first', 'zipWithUniqueId', 'zipWithIndex', 'reduceByKey', 'poisson-sample-persist', 'distinct-count',
-                         'distinct', 'aggregateByKey', 'foldByKey', 'groupByKey', 'toLocalIterator', 'nested-job-in-toLocalIterator',
-                         'saveAsTextFile',
-                         'last-collect', 'cache', 'unstamped']
-                yield (f'{BACKEND_NAMES[b]}:free-program:{names[which]}-differs-from-default-executor',
-                       f'{names[which]}: {got[which]!r} instead of {want[which]!r}', repr((spec, timed, sched[:3])), None)
+            if o is not None:
+                yield (o[0], o[1], 'replayable: ./check C03 --replay <this file>', case)
+                if o[0].startswith('dummy:'):
+                    break
+
+
+# ---------------------------------------------------------------------------------------------------
+# multi-step HISTORIES on one context per backend: persist / cache on several datasets, actions (also partial ones:
+# take, first), a change of the data source between the steps, unpersist(), actions again.  After every step the
+# value and the driver's cache_obj keys are compared with the default executor.  The source is a factor stored in a
+# file, so that every backend (threads, pickled copies, other processes) sees the current value.
+def _read_factor(path):
+    with open(path, 'r', encoding='utf8') as f:
+        return int(f.read())
+
+
+def _set_factor(path, v):
+    with open(path, 'w', encoding='utf8') as f:
+        f.write(str(v))
+
+
+def _history_spec(rng):
+    data = [rng.randint(0, 9) for _ in range(rng.choice([1, 2, 3, 5, 8]))]
+    slices = rng.randint(2, 4) if rng.random() < 0.6 else len(data) + rng.randint(1, 2)    # also empty partitions
+    steps = []
+    for _ in range(rng.randint(4, 12)):
+        k = rng.random()
+        ds = rng.choice('ABC')
+        if k < 0.35:
+            steps.append((rng.choice(['collect', 'collect', 'count', 'sum']), ds))
+        elif k < 0.5:
+            steps.append((rng.choice(['first', 'take']), ds))
+        elif k < 0.7:
+            steps.append(('factor', rng.choice([2, 3, 10, 11])))
+        elif k < 0.9:
+            steps.append(('unpersist', ds))
+        else:
+            steps.append(('coalesce', ds))
+    # the scenario of the property text at least once: action, source changes, unpersist, action again
+    ds = rng.choice('ABC')
+    steps += [('collect', ds), ('factor', 7), ('collect', ds), ('unpersist', ds), ('collect', ds), ('collect', ds)]
+    return (data, slices, steps)
+
+
+def _history_program(spec, factor_file):
+    data, slices, steps = spec
+
+    def scale(x):
+        return x * _read_factor(factor_file)
+
+    def keep(x):
+        return (x + _read_factor(factor_file)) % 3 != 0
+
+    def program(sc):
+        _set_factor(factor_file, 1)
+        a = sc.parallelize(list(data), slices).map(scale).persist()
+        b = a.filter(keep).cache()                                  # cache() on a second dataset, on top of the first
+        c = sc.parallelize(list(data)[::-1], slices).map(scale).cache()   # and on an unrelated one
+        sets = {'A': a, 'B': b, 'C': c}
+        ids = {a.id(): 'A', b.id(): 'B', c.id(): 'C'}
+        out = []
+        for step in steps:
+            try:
+                if step[0] == 'factor':
+                    _set_factor(factor_file, step[1])
+                    value = None
+                elif step[0] == 'unpersist':
+                    sets[step[1]].unpersist()
+                    value = None
+                elif step[0] == 'coalesce':
+                    value = [list(p.x()) for p in sets[step[1]].coalesce(2).partitions()]
+                elif step[0] == 'take':
+                    value = sets[step[1]].take(2)
+                else:
+                    value = getattr(sets[step[1]], step[0])()
+            except Exception as e:  # pylint: disable=broad-except
+                value = ('raised', type(e).__name__)
+            cm = sc._cache_manager  # pylint: disable=protected-access
+            keys = sorted((ids.get(k[0], '?'), k[1]) for k in cm.cache_obj)
+            out.append((step, value, keys))
+        return out
+    return program
+
+
+def _judge_history(backend, timed, spec, sched, scratch):
+    factor_file = os.path.join(scratch, f'factor_{os.getpid()}.txt')
+    program = _history_program(spec, factor_file)
+    want, err = _default_executor(('history', spec, timed), lambda: program(make_context(2, timed)[0]))
+    if err:
+        return ('dummy:history-raised', err)
+    if backend == 2:
+        return None
+    bname = BACKEND_NAMES[backend]
+    try:
+        got = program(make_context(backend, timed, sched)[0])
+    except Exception as e:  # pylint: disable=broad-except
+        return (f'{bname}:history-raised:{type(e).__name__}', 'history raised on this backend only')
+    for n_step, (g, w) in enumerate(zip(got, want)):
+        if g != w:
+            what = 'value' if g[1] != w[1] else 'cache-keys'
+            prior = [st[0] for st in spec[2][:n_step + 1]]
+            after = 'after-unpersist' if 'unpersist' in prior else 'before-any-unpersist'
+            return (f'{bname}:history:{w[0][0]}:{what}-differs-from-default-executor:{after}',
+                    f'step #{n_step} {w[0]!r}: value, cache keys = {g[1:]!r}; the default executor gives {w[1:]!r}')
+    return None
+
+
+def _history_checks(rng, n, have, scratch):  # pylint: disable=unused-argument
+    for _ in range(n):
+        spec = _history_spec(rng)
+        timed = int(rng.random() < 0.2)
+        _EXTRA['histories'] = _EXTRA.get('histories', 0) + 1
+        for b in have:
+            sched = ([[rng.randrange(spec[1]) for _ in range(rng.randint(0, 60))] for _ in range(len(spec[2]) + 2)]
+                     if b in (0, 1) else [])
+            case = ('history', b, timed, spec, sched)
+            o = _judge_program(case)
+            _EXTRA['history_backend_runs'] = _EXTRA.get('history_backend_runs', 0) + 1
+            if o is not None:
+                yield (o[0], o[1], 'replayable: ./check C03 --replay <this file>', case)
+                if o[0].startswith('dummy:'):
+                    break
 
 
 def extra_evidence():
